@@ -73,6 +73,7 @@ impl Prop for P {
                 }
                 let env = Env::new(&data, zl, *ring, cx)?;
                 let Some(env) = env else { return Ok(()) };
+                env.trailer_cuts(zl, cx)?;
                 let n = data.len();
                 for k in 1..n {
                     let s = DecSched { chunks: vec![k as u32], budgets: vec![] };
@@ -91,6 +92,7 @@ impl Prop for P {
             Case::Random { input, ring, scheds } => {
                 let Some((data, zl)) = input.bytes(cx) else { return Ok(()) };
                 let Some(env) = Env::new(&data, zl, *ring, cx)? else { return Ok(()) };
+                env.trailer_cuts(zl, cx)?;
                 for (i, s) in scheds.iter().enumerate() {
                     env.compare(s, &format!("random schedule #{i}"), cx)?;
                 }
@@ -210,6 +212,37 @@ impl<'a> Env<'a> {
             vensure!(r.status == TINFLStatus::Done && &r.out == p, "c07:valid-not-decoded", "valid stream: reference run gives {} / {} bytes (want {})", status_name(r.status), r.out.len(), p.len());
         }
         Ok(Some(Env { data, zf, mode, reference: outcome(&r), ref_out_len: r.out.len(), valid_plain }))
+    }
+
+    /// Exact-size output and input cut inside the zlib trailer (upstream issue #110). All plaintext is
+    /// out and every deflate bit has been supplied, so the only truthful answer to "more input follows"
+    /// is `NeedsMoreInput`, never `HasMoreOutput`; resuming with the rest finishes with `Done`; and
+    /// `decompress_slice_iter_to_slice` succeeds with an output slice of exactly the plaintext's size.
+    /// (Cuts *before* the end-of-block code are left out on purpose: there the crate answers
+    /// `HasMoreOutput` for a full buffer by design, and no clause of C07 forbids it.)
+    fn trailer_cuts(&self, zl: bool, cx: &mut Ctx) -> Check {
+        let (Some(p), BufMode::Flat { .. }, true) = (&self.valid_plain, self.mode, zl) else { return Ok(()) };
+        let c = self.reference.2;
+        if c < 6 || c > self.data.len() || self.reference.1 != TINFLStatus::Done {
+            return Ok(());
+        }
+        let flags = (self.zf & !TINFL_FLAG_HAS_MORE_INPUT) | TINFL_FLAG_USING_NON_WRAPPING_OUTPUT_BUF;
+        for k in c - 4..c {
+            let mut d = DecompressorOxide::new();
+            let mut out = vec![0u8; p.len()];
+            let data = self.data;
+            let (st, used, wrote) = guard(|| miniz_oxide::inflate::core::decompress(&mut d, &data[..k], &mut out, 0, flags | TINFL_FLAG_HAS_MORE_INPUT)).map_err(|pm| Violation::new(panic_sig("decompress", &pm), format!("panic: {pm}")))?;
+            vensure!(st == TINFLStatus::NeedsMoreInput && used == k && wrote == p.len(), "c07:exact-output-cut-in-trailer", "zlib stream of {c} bytes, output slice of exactly the plaintext's {} bytes, first {k} input bytes with HAS_MORE_INPUT: {} (consumed {used}, wrote {wrote}); want NeedsMoreInput, {k}, {}", p.len(), status_name(st), p.len());
+            let (st2, used2, wrote2) = guard(|| miniz_oxide::inflate::core::decompress(&mut d, &data[k..c], &mut out, wrote, flags)).map_err(|pm| Violation::new(panic_sig("decompress", &pm), format!("panic: {pm}")))?;
+            vensure!(st2 == TINFLStatus::Done && used2 == c - k && wrote2 == 0 && &out == p, "c07:exact-output-cut-in-trailer", "resumed after a cut at {k} of {c} with an exact-size output: {} (consumed {used2}, wrote {wrote2})", status_name(st2));
+            let mut out = vec![0u8; p.len()];
+            let slices = [&data[..k], &data[k..c]];
+            let r = guard(|| miniz_oxide::inflate::decompress_slice_iter_to_slice(&mut out, slices.iter().copied(), true, false)).map_err(|pm| Violation::new(panic_sig("slice_iter", &pm), format!("panic: {pm}")))?;
+            vensure!(r == Ok(p.len()) && &out == p, "c07:slice-iter-exact-output-cut-in-trailer", "decompress_slice_iter_to_slice, output slice of exactly {} bytes, input cut at {k} of {c}: {:?}", p.len(), r);
+            cx.evals(3);
+        }
+        cx.class("exact-output:cut-in-trailer");
+        Ok(())
     }
 
     fn compare(&self, s: &DecSched, what: &str, cx: &mut Ctx) -> Check {
